@@ -105,7 +105,11 @@ impl Ssh {
                                 }
                             }
                         } else {
-                            // TODO: what should we do if it's None?
+                            // the channel is gone (closed by the peer, or the connection was
+                            // lost): stop, which closes both queues and fails pending and later
+                            // operations
+                            tracing::info!("ssh channel closed, hanging up");
+                            break;
                         }
                     }
                 }
